@@ -41,6 +41,27 @@ pub struct Side {
   /// authentication completed while processing a bad or tainted message
   pub completed_on_bad: Option<String>,
   pub last_err: Option<String>,
+  /// participant data this side presents instead of its true one (a CA-certified participant that lies)
+  pub pdata_override: Option<Vec<u8>>,
+}
+
+/// flip a bit in the GUID prefix inside serialized participant data (PID_PARTICIPANT_GUID, PL_CDR_BE)
+pub fn unbind_guid(pdata: &[u8]) -> Option<Vec<u8>> {
+  let mut b = pdata.to_vec();
+  let mut at = 4;
+  while at + 4 <= b.len() {
+    let pid = u16::from_be_bytes([b[at], b[at + 1]]);
+    let len = usize::from(u16::from_be_bytes([b[at + 2], b[at + 3]]));
+    if pid == 0x0050 && at + 4 + 16 <= b.len() {
+      b[at + 4] ^= 0x40;
+      return Some(b);
+    }
+    if pid == 1 {
+      break;
+    }
+    at += 4 + len;
+  }
+  None
 }
 
 impl Side {
@@ -56,7 +77,7 @@ impl Side {
     let me = self.part.prefix();
     match self.st {
       DState::ReqMsg => {
-        let pd = self.part.pdata();
+        let pd = self.pdata_override.clone().unwrap_or_else(|| self.part.pdata());
         let r = self.part.h.get_plugins().begin_handshake_reply(me, peer, tok.clone(), pd);
         match r {
           Ok((ValidationOutcome::PendingHandshakeMessage, reply)) => {
@@ -139,6 +160,12 @@ fn e(x: crate::security::SecurityError) -> String {
 impl Pair {
   /// Both participants up, identities cross-validated, the request produced (in flight).
   pub fn start(conf_a: &Conf, conf_b: &Conf) -> Result<Pair, String> {
+    Self::start_lying(conf_a, conf_b, None)
+  }
+
+  /// `lie`: Some(true) the replier, Some(false) the requester presents participant data with a GUID that is
+  /// not bound to its (CA-issued) certificate, and signs its messages over that data itself
+  pub fn start_lying(conf_a: &Conf, conf_b: &Conf, lie: Option<bool>) -> Result<Pair, String> {
     let pa = Part::bring_up(0x61, conf_a, 0)?;
     let pb = Part::bring_up(0x62, conf_b, 0)?;
     let ta = pa.h.get_plugins().get_identity_token(pa.prefix()).map_err(e)?;
@@ -151,9 +178,11 @@ impl Pair {
       other => return Err(format!("validate_remote_identity outcomes {other:?}")),
     };
     let pd = req.pdata();
+    let pd = if lie == Some(false) { unbind_guid(&pd).ok_or("MACHINERY no GUID in pdata")? } else { pd };
     let (_, m1) = req.h.get_plugins().begin_handshake_request(req.prefix(), rep.prefix(), pd).map_err(e)?;
-    let a = Side { part: req, st: DState::ReplyMsg, stored: Some((m1.clone(), false)), completed_on_bad: None, last_err: None };
-    let b = Side { part: rep, st: DState::ReqMsg, stored: None, completed_on_bad: None, last_err: None };
+    let rep_pd = if lie == Some(true) { Some(unbind_guid(&rep.pdata()).ok_or("MACHINERY no GUID in pdata")?) } else { None };
+    let a = Side { part: req, st: DState::ReplyMsg, stored: Some((m1.clone(), false)), completed_on_bad: None, last_err: None, pdata_override: None };
+    let b = Side { part: rep, st: DState::ReqMsg, stored: None, completed_on_bad: None, last_err: None, pdata_override: rep_pd };
     Ok(Pair { a, b, m: vec![m1] })
   }
 
@@ -430,6 +459,18 @@ pub fn genuine(conf_a: &Conf, conf_b: &Conf) -> Result<(Transcript, bool), Strin
   }
   let eq = p.done() && p.secrets_equal();
   Ok((Transcript { m: p.m[..3].to_vec() }, eq))
+}
+
+/// A run in which one CA-certified side lies about its GUID: (requester authenticated, replier authenticated)
+pub fn lying_run(conf_a: &Conf, conf_b: &Conf, replier_lies: bool) -> Result<(bool, bool), String> {
+  let mut p = Pair::start_lying(conf_a, conf_b, Some(replier_lies))?;
+  for _ in 0..3 {
+    if !p.step() {
+      break;
+    }
+  }
+  p.continue_genuinely(None, 3);
+  Ok((p.a.authenticated(), p.b.authenticated()))
 }
 
 pub fn run(conf_a: &Conf, conf_b: &Conf, sc: &Scenario, old: &Transcript) -> Result<RunResult, String> {
